@@ -1010,6 +1010,9 @@ class ScriptedStrategy(BaseStrategy):
                         target.replace_order(order, new_price=order.order_type.price)  # same price: always refused with an exception
                 except FlumineException as e:
                     self._log(act, exc=type(e).__name__)
+                    if not hasattr(self.tr, "own_exception_trades"):
+                        self.tr.own_exception_trades = set()
+                    self.tr.own_exception_trades.add(self.tr.tkey(order.trade))
             elif op == "clear_context":
                 # strategy bookkeeping kept in market.context is rebuilt from scratch
                 market.context = {"mine": self.name}
